@@ -15,7 +15,7 @@ HEAD=$(git -C /repo log --format=%h -1)
 MISSED=0
 for d in /verif/seeded/*/; do
   id=$(basename $d); [ -f $d/meta.json ] || continue
-  prop=$(python3 -c "import json;print(json.load(open('$d/meta.json'))['property'])")
+  prop=$(python3 -c "import json;print(json.load(open('$d/meta.json'))['detected_by']['check'].split()[1])")
   ( cd $W/repo && git checkout -q -- . && git apply $d/patch.diff ) || { echo "| $id | $prop | patch does not apply | |" >> "$OUT.tmp"; continue; }
   out=$(cd $W/verif && VERIF_REPLAY_DIR=$W/replays ./check $prop quick 2>&1); rc=$?
   sigs=$(echo "$out" | grep -A1 "signature:" | sed -n 's/.*signature: \(.*\)/\1/p;s/.*runs with this signature: \(.*\)/(\1)/p' | paste -sd' ' | cut -c1-300)
